@@ -71,3 +71,13 @@ Proof.
   destruct T as (q & _ & _ & L). intro H. injection H as H. rewrite <- H. exact L.
 Qed.
 
+
+(* what an accepting host call means at the library level *)
+Lemma host_ecdsa_accepts_inner pk msg sig65 : host_ecdsa_verify pk msg sig65 = true ->
+  exists q, parse_pubkey pk = Some q
+            /\ secp256k1_verify_signature (serialize_compressed q) (firstn 64 sig65) (blake2b_hash msg) = true.
+Proof.
+  unfold host_ecdsa_verify, secp256k1_verify_signature.
+  destruct (secp256k1_pubkey_verify pk (blake2b_hash msg) (firstn 64 sig65)) eqn:E; try discriminate.
+  intros _. destruct (pubkey_verify_ok _ _ _ E) as (q & Pq & V). now exists q.
+Qed.
